@@ -19,6 +19,7 @@ mod c11;
 mod c13;
 mod c17;
 mod c19;
+mod c15;
 
 fn main() {
     let args: Vec<String> = std::env::args().collect();
@@ -51,6 +52,7 @@ fn main() {
         "C13" => c13::main(tier, seed, n),
         "C17" => c17::main(tier, seed, n),
         "C19" => c19::main(tier, seed, n),
+        "C15" => c15::main(tier, seed, n),
         p => { eprintln!("unknown property {}", p); std::process::exit(2); }
     }
 }
